@@ -101,6 +101,10 @@ var c18Sections = map[string][]c18Variant{
 		{"health_checks:\n  passive:\n    enabled: true\n", false, "passive enabled, fields omitted", false},
 		{"health_checks:\n  active:\n    enabled: true\n    interval: 10\n    timeout: 7\n    path: \"/\"\n  passive:\n    enabled: true\n    unhealthy_threshold: 0\n    unhealthy_timeout: 30\n", false, "active valid, passive zero threshold", false},
 		{"health_checks:\n  active:\n    enabled: true\n    interval: 10\n    timeout: 7\n    path: \"/\"\n  passive:\n    enabled: true\n    unhealthy_threshold: 2\n    unhealthy_timeout: -1\n", false, "active valid, passive negative timeout", false},
+		{"health_checks:\n  active:\n    enabled: true\n    interval: 0\n    timeout: 1\n    path: \"/\"\n  passive:\n    enabled: true\n    unhealthy_threshold: 3\n    unhealthy_timeout: 30\n", false, "active zero interval, passive valid", false},
+		{"health_checks:\n  active:\n    enabled: true\n    interval: 5\n    timeout: 9\n    path: \"/\"\n  passive:\n    enabled: true\n    unhealthy_threshold: 3\n    unhealthy_timeout: 30\n", false, "active timeout > interval, passive valid", false},
+		{"health_checks:\n  active:\n    enabled: true\n    interval: 5\n    timeout: 2\n  passive:\n    enabled: true\n    unhealthy_threshold: 1\n    unhealthy_timeout: 1\n", false, "active without path, passive valid", false},
+		{"health_checks:\n  active:\n    enabled: true\n    interval: 5\n    timeout: 2\n    path: \"/\"\n  passive:\n    enabled: false\n    unhealthy_threshold: 0\n", true, "active valid, passive disabled with zero fields", false},
 	},
 	"rate_limit": {
 		{"", true, "omitted", false},
